@@ -115,7 +115,7 @@ def correspondence(ck, binpath, n, mode=None, corpus=CORPUS31, tag="corr"):
     if rc != 0:
         ck.tie_broken("harness c31 corr failed", (out + err)[-2000:])
         return
-    cases = [json.loads(l) for l in out.splitlines() if l.strip()]
+    cases = [json.loads(l) for l in jlines(out) if l.strip()]
     terms = []
     kept = []
     for c in cases:
@@ -162,7 +162,7 @@ def run_search(ck, binpath, nproc, n, extra, on_violation):
         if rc != 0:
             ck.tie_broken("harness %s search failed (process %d)" % (os.path.basename(binpath), i), (out + err)[-2000:])
             continue
-        for l in out.splitlines():
+        for l in jlines(out):
             if not l.strip():
                 continue
             v = json.loads(l)
